@@ -195,7 +195,8 @@ func solveOne(o *Oblig, t *Trans, opt SolveOpts) *Result {
 	if want == "unsat" {
 		r.Verdict = "undischarged"
 	} else {
-		r.Verdict = "cover-fail"
+		// no solver decided the cover within the time limit: not evidence of vacuity
+		r.Verdict = "cover-unknown"
 	}
 	return r
 }
